@@ -164,7 +164,7 @@ def judge(ctx, s, domain, ref_toks=None, expect=None):
     case = {"formula": s, "domain": domain}
 
     if rt is None:
-        ctx.count(s, _junk_in_sentence(s), classes + ["verdict:not_tokenisable"], stratum=domain + "/not_tokenisable")
+        ctx.count(s, _junk_in_sentence(s), classes + ["verdict:not_tokenisable"], stratum=domain + "/not_tokenisable", distinct=domain == "tokens")
         if accepted:
             ctx.fail("accepts_nonsentence", case, f"{s!r} cannot be tokenised by the grammar but is accepted as {view['model']}", "lexical")
         return None
@@ -187,7 +187,7 @@ def judge(ctx, s, domain, ref_toks=None, expect=None):
             except rp.Reject:
                 pass
         ctx.count(s, has_prefix, classes + ["verdict:nonsentence" + ("_with_sentence_prefix" if has_prefix else "")],
-                  stratum=domain + "/nonsentence")
+                  stratum=domain + "/nonsentence", distinct=domain == "tokens")
         if accepted:
             ctx.fail("accepts_nonsentence", case, f"{s!r} is not a sentence of the grammar but is accepted as {view['model']}",
                      "leftover" if has_prefix else "malformed")
@@ -200,7 +200,7 @@ def judge(ctx, s, domain, ref_toks=None, expect=None):
     nt = exercises_precedence(ref)
     ctx.count(s, nt, classes + ["verdict:" + ("sentence" if strict is not None else "loose_only_sentence"),
                                 domain + (":accepted" if accepted else ":rejected_by_library")],
-              stratum=domain + ("/accepted" if accepted else "/rejected"))
+              stratum=domain + ("/accepted" if accepted else "/rejected"), distinct=domain == "tokens")
     if view["ast"] is not None and not rp.same_ast(view["ast"], ref):
         ctx.fail("tree", case, f"{s!r} parsed as {view['ast']} but its fully parenthesised form is {rp.full(ref)!r} ({ref})",
                  "strict" if strict is not None else "loose")
